@@ -63,15 +63,27 @@ def history_standin(pid, props, tier, seed, n_quick=(40, 30), n_thorough=(400, 4
     return standin, viol
 
 
-def find_history_witness(props, seed, budget=(300, 40)):
-    """Look for a concrete failing history on the real code (used when a proof obligation fails)."""
+_WITNESS_CACHE = {}
+
+
+def find_history_witness(props, seed, budget=(60, 40), workers=8):
+    """Look for a concrete failing history on the real code (used when a proof obligation fails): several
+    seeds in parallel; memoised per check run."""
+    key = (tuple(props), seed)
+    if key in _WITNESS_CACHE:
+        return _WITNESS_CACHE[key]
+    from concurrent.futures import ThreadPoolExecutor
+    found = None
     with Overlay() as ov:
-        for s in range(seed, seed + 3):
-            res = run_module(ov, "oracles.harness", [",".join(props), s, budget[0], budget[1]], timeout=900)
-            if res.get("ok") is False:
-                return {"steps": res["steps"], "props": res.get("props", props), "errors": res.get("errors"),
-                        "profile": res.get("profile", "wide")}
-    return None
+        def one(s):
+            return run_module(ov, "oracles.harness", [",".join(props), s, budget[0], budget[1]], timeout=900)
+        with ThreadPoolExecutor(max_workers=workers) as ex:
+            for res in ex.map(one, range(seed + 100, seed + 100 + workers)):
+                if res.get("ok") is False and found is None:
+                    found = {"steps": res["steps"], "props": res.get("props", props), "errors": res.get("errors"),
+                             "profile": res.get("profile", "wide")}
+    _WITNESS_CACHE[key] = found
+    return found
 
 
 def replay_file(path):
